@@ -197,7 +197,9 @@ class World:
             self._submit(n // 2, "b" * 3000 if n == 2 else "")
         elif kind == "submit_many":
             for i in range(self.queue_page + 1):
-                self._submit(1000 + i)
+                # the first of them carries a long argument that still stays inline in the stored call (below the
+                # externalisation threshold, above what the pages display in full)
+                self._submit(1000 + i, "m" * 700 if i == 0 else "")
         elif kind == "claim":
             for inv in app.orchestrator.get_invocations_to_run(1, self.r1):
                 self.claimed.append(inv)
